@@ -296,9 +296,14 @@ Upd_Germinate(t, s, e) == [s EXCEPT !.ws = WsOf(s, e), !.germ = e.germ, !.delaye
 \* (a time within 1e-9 of a phenological threshold is a tie between exact and floating-point comparison: both stages accepted)
 StageAt(t, e) == IF Le(t, e.c10) THEN 1 ELSE IF Le(t, e.maxc) THEN 2 ELSE IF Le(t, e.sen) THEN 3 ELSE 4
 StagesOk(e) == {StageAt(Sub(e.tadj, Tol9), e), StageAt(e.tadj, e), StageAt(Add(e.tadj, Tol9), e)}
+\* with the comparisons of the doubles logged (cmp[k] = "time <= k-th threshold"), the stage is decided exactly - an equality is stage "before" -
+\* and the logged comparisons must agree with the fixed-point values outside the 1e-9 band
+StageExact(e) == IF e.cmp[1] THEN 1 ELSE IF e.cmp[2] THEN 2 ELSE IF e.cmp[3] THEN 3 ELSE 4
+CmpOk(e) == LET thr == <<e.c10, e.maxc, e.sen>> IN
+            \A k \in 1..3 : (e.cmp[k] => Le(e.tadj, Add(thr[k], Tol9))) /\ (~e.cmp[k] => Gt(e.tadj, Sub(thr[k], Tol9)))
 GrowthStageC(t, s, e) ==
   [ offSeason |-> (~e.gs) => e.stage = 0,
-    stage     |-> e.gs => e.stage \in StagesOk(e),
+    stage     |-> e.gs => (IF Has(e, "cmp") THEN e.stage = StageExact(e) /\ CmpOk(e) ELSE e.stage \in StagesOk(e)),
     monotone  |-> (e.gs /\ s.clk.dap + 1 > 1 /\ s.stage > 0) => e.stage >= s.stage \/ ~Eq(s.delayedCds, s.delayedCds) ]
 Chk_GrowthStage(t, s, e) == Tag("GrowthStage", GrowthStageC(t, s, e)) \cup Chk_Frame(t, s, e, "GrowthStage")
 \* ---- GrowthStage / Canopy (values carried to the day-end clauses)
@@ -541,7 +546,8 @@ Chk(t, s, e) ==
     [] e.e = "RootZone"      -> Chk_RootZone(t, s, e)
     [] e.e = "DayEnd"        -> Chk_DayEnd(t, s, e)
     [] e.e = "Advance"       -> Chk_Advance(t, s, e)
-    [] e.e = "Crash"         -> {<<"Crash", e.type, {"C16"}>>}
+    \* (an exception raised by the time stepping itself - outside every stage function - also breaks "the run always terminates" of C07)
+    [] e.e = "Crash"         -> {<<"Crash", e.type, IF Has(e, "driver") /\ e.driver THEN {"C16", "C07"} ELSE {"C16"}>>}
     [] e.e = "Reject"        -> {}
     [] OTHER                 -> {<<"Unknown", e.e, {}>>}
 
